@@ -509,6 +509,15 @@ func runC12(c *core.Ctx) {
 				if avail >= declared && (len(iv) != declared || len(irem) != avail-declared) {
 					c.Violate("data.ReadInteger", "complete-input-not-read", sh, in[1:], "")
 				}
+				// the pointer-returning counterpart: a complete value exactly when enough bytes are there,
+				// also when the integer is the last thing in the buffer
+				ni, nrem, nerr := data.NewInteger(in[1:], declared)
+				if avail < declared && nerr == nil && ni != nil && len(*ni) == declared {
+					c.Violate("data.NewInteger", "complete-value-from-short-input", sh, in[1:], "full-width integer from short input")
+				}
+				if avail >= declared && (nerr != nil || ni == nil || len(*ni) != declared || len(nrem) != avail-declared) {
+					c.Violate("data.NewInteger", "complete-input-not-read", sh, in[1:], fmt.Sprintf("%d bytes available for a %d-byte integer: %v", avail, declared, nerr))
+				}
 			}
 			if declared == 8 && avail <= 12 {
 				_, _, err := data.ReadDate(in[1:])
